@@ -7,6 +7,7 @@ use std::collections::BTreeMap;
 pub mod c09;
 pub mod c12;
 pub mod c18;
+pub mod c19;
 pub mod c26;
 pub mod c28;
 pub mod c30;
@@ -14,6 +15,7 @@ pub mod c31;
 pub mod c32;
 pub mod c33;
 pub mod c40;
+pub mod c47;
 pub mod c52;
 
 #[derive(Clone, Copy, Debug, PartialEq, Eq)]
@@ -101,6 +103,7 @@ pub fn make(id: &str) -> Option<Box<dyn Check>> {
         "C09" => Some(Box::new(c09::C09::new())),
         "C12" => Some(Box::new(c12::C12::new())),
         "C18" => Some(Box::new(c18::C18::new())),
+        "C19" => Some(Box::new(c19::C19::new())),
         "C26" => Some(Box::new(c26::C26::new())),
         "C28" => Some(Box::new(c28::C28::new())),
         "C30" => Some(Box::new(c30::C30::new())),
@@ -108,6 +111,7 @@ pub fn make(id: &str) -> Option<Box<dyn Check>> {
         "C32" => Some(Box::new(c32::C32::new())),
         "C33" => Some(Box::new(c33::C33::new())),
         "C40" => Some(Box::new(c40::C40::new())),
+        "C47" => Some(Box::new(c47::C47::new())),
         "C52" => Some(Box::new(c52::C52::new())),
         _ => None,
     }
